@@ -1856,11 +1856,29 @@ func nwRunStop(in map[string]any) vrResult {
 	if s, ok := in["api"].(string); ok {
 		api = s
 	}
+	fault := -1
+	if v, ok := in["fault"]; ok && v != nil {
+		fault = vrInt(v)
+	}
+	if fault > len(data) {
+		fault = len(data)
+	}
 	var mk func() iter.Seq2[*Node, error]
 	switch api {
 	case "Reader":
 		mk = func() iter.Seq2[*Node, error] { return Reader(bytes.NewReader(data)) }
+		if fault >= 0 {
+			// failing underlying reader: delivers data[:fault], then a non-EOF error
+			// (once and then io.EOF, or forever); a fresh one for every run.
+			forever := vrBool(in["forever"])
+			mk = func() iter.Seq2[*Node, error] {
+				return Reader(&nwFaultReader{data: data, offset: fault, forever: forever})
+			}
+		}
 	case "File":
+		if fault >= 0 {
+			panic("harness: fault needs api \"Reader\"")
+		}
 		path, cleanup := nwTempFile(data, false, false)
 		defer cleanup()
 		mk = func() iter.Seq2[*Node, error] { return File(path) }
@@ -1928,6 +1946,24 @@ func nwGenStop(g *vrGen) {
 		if g.Expired() {
 			complete = false
 			break
+		}
+	}
+	// failing underlying reader (Reader only): every fault offset x {once, forever} x every stop
+	for _, s := range []string{"a;", "(a,b)c;", "a;b;c;d;", "(a:1,b:2e3)c:-0.5;\n(d);\n", "'a''b';x;", "a;(b;c;", "a;  \n x"} {
+		if !complete {
+			break
+		}
+		data := []byte(s)
+		for off := 0; off <= len(data); off++ {
+			for _, forever := range []bool{false, true} {
+				items, _, _ := nwCollect(Reader(&nwFaultReader{data: data, offset: off, forever: forever}), len(data)+8)
+				for stop := 0; stop <= len(items); stop++ {
+					g.Case(map[string]any{"data": vrB(data), "stop": stop, "api": "Reader", "fault": off, "forever": forever})
+				}
+			}
+		}
+		if g.Expired() {
+			complete = false
 		}
 	}
 	g.Exhaustive(complete)
@@ -2466,8 +2502,8 @@ func nwClauses() []vrClause {
 			Rule:  "no panic; ends within len+8 items and 20 s; every item is a tree or an error; every accepted tree without TAB/CR/LF in its names (exemption of the statement) written with MarshalText reads back as exactly that tree",
 			Gen:   nwGenTotal, Run: nwRunTotal},
 		{Prop: "C18", Name: "stop",
-			Bound: "32 well-formed/malformed inputs x every stop index 0..N x {Reader, File}; random inputs with random stop",
-			Rule:  "consumer returns false on item #stop (0-based): no further callback, no panic, items seen == items 0..stop of the uninterrupted run; in the uninterrupted run an error item is the last item",
+			Bound: "32 well-formed/malformed inputs x every stop index 0..N x {Reader, File}; failing underlying reader (Reader only): 7 small inputs (5 well-formed, 2 with a malformed tail) x every fault offset 0..len x {fails once then EOF, fails forever} x every stop index 0..N (N = items of the uninterrupted run with that fault); random inputs with random stop (no fault)",
+			Rule:  "consumer returns false on item #stop (0-based): no further callback, no panic, items seen == items 0..stop of the uninterrupted run; in the uninterrupted run an error item is the last item; with \"fault\" >= 0 every run uses a fresh reader that delivers data[:fault] and then fails with a non-EOF error (\"forever\": every time, else once and then io.EOF)",
 			Gen:   nwGenStop, Run: nwRunStop},
 		{Prop: "C18", Name: "traverse-stop",
 			Bound: "all ordered trees <= 5 (quick) / <= 7 (thorough) nodes x {PreOrder, PostOrder} x every stop index 0..n; chain and star of 3000 nodes at 8 stop indices; random trees <= 300 nodes",
